@@ -209,6 +209,8 @@ class Executor(ExprMixin, StmtMixin, Engine):
                 yield from self.construct(s1, fv.py, pos, kw, node)
             elif kind == 'localfunc':
                 yield from self.inline_local(s1, fv.py, pos, kw, node)
+            elif kind == 'tuple_ctor':
+                yield s1, mk_tuple(pos)       # namedtuple constructor: positional fields
             else:
                 raise OutOfSubset('call of %s' % kind, node)
 
@@ -407,7 +409,7 @@ class Executor(ExprMixin, StmtMixin, Engine):
                     yield s2, item
             elif name == 'extend':
                 other = pos[0]
-                newl = self.list_concat(base if not isinstance(base.t.elem, TNone) else self.retag_empty(base, other.t.elem), other)
+                newl = self.list_concat(base if not isinstance(base.t.elem, TNone) else self.retag_empty(base, other.t.elem), other, s1)
                 for s2 in self.assign(f.value, newl, s1, line):
                     yield s2, NONE_VAL
             elif name == 'remove':
@@ -946,6 +948,7 @@ class Executor(ExprMixin, StmtMixin, Engine):
         self.cur_class = qual[0] if len(qual) > 1 else None
         self.local_types = c.body_types
         self.cur_fn_stack = [key]
+        self.concat_axioms = bool(getattr(c, 'options', {}).get('concat_axioms'))
         st = self.initial_state(c)
         # class-typed first parameter of classmethods
         for (pn, pt, *rest) in c.params:
